@@ -21,12 +21,13 @@ def run(project, rep):
     rep.unit("classes", nc)
     rep.unit("children", nch)
     rep.unit("mutex_groups", nm)
-    S.all_m(schema, rep)
-    S.s_r1_tags(schema, rep)
-    S.s_r2_findable(schema, rep)
-    S.s_r3_mutexes(schema, rep)
-    S.s_r4_contiguity(schema, rep)
-    S.s_r5_listkinds(schema, rep)
-    S.s_r6_constraints(schema, rep)
-    S.s_r7_shadowing(schema, rep)
-    S.s_r8_buildable(schema, rep)
+    for m_ in (S.m1_from_etree, S.m2_update_args, S.m3_to_etree, S.m4_apply_args, S.m5_validate_args):
+        rep.run(m_, schema, rep)
+    rep.run(S.s_r1_tags, schema, rep)
+    rep.run(S.s_r2_findable, schema, rep)
+    rep.run(S.s_r3_mutexes, schema, rep)
+    rep.run(S.s_r4_contiguity, schema, rep)
+    rep.run(S.s_r5_listkinds, schema, rep)
+    rep.run(S.s_r6_constraints, schema, rep)
+    rep.run(S.s_r7_shadowing, schema, rep)
+    rep.run(S.s_r8_buildable, schema, rep)
